@@ -82,4 +82,35 @@ theorem first_undelivered {del q wr : List Nat} (h : del ++ q = wr) : wr[del.len
   subst h
   cases q <;> simp
 
+theorem runWith_append {σ ι ο} (step : σ → ι → σ × ο) : ∀ (is js : List ι) (s : σ),
+    runWith step s (is ++ js) =
+      ((runWith step (runWith step s is).1 js).1,
+       (runWith step s is).2 ++ (runWith step (runWith step s is).1 js).2)
+  | [], js, s => by simp [runWith]
+  | i :: is, js, s => by
+    simp only [List.cons_append, runWith]
+    rw [runWith_append step is js]
+
+/-- if every step keeps `delivered ++ stored = written` (under a step-preserved invariant),
+    so does every run -/
+theorem hist_runWith {σ ι ο} (step : σ → ι → σ × ο) (inv : σ → Prop) (absf : σ → List Nat) (evf : ο → Ev)
+    (hinv : ∀ s i, inv s → inv (step s i).1)
+    (hstep : ∀ s i del wr, inv s → del ++ absf s = wr →
+      (upd (del, wr) (evf (step s i).2)).1 ++ absf (step s i).1 = (upd (del, wr) (evf (step s i).2)).2) :
+    ∀ (is : List ι) (s : σ) (g : List Nat × List Nat), inv s → g.1 ++ absf s = g.2 →
+      (histFrom g ((runWith step s is).2.map evf)).1 ++ absf (runWith step s is).1
+        = (histFrom g ((runWith step s is).2.map evf)).2
+  | [], s, g, _, h => by simpa [runWith, histFrom] using h
+  | i :: is, s, g, hi, h => by
+    simp only [runWith, List.map_cons, histFrom_cons]
+    exact hist_runWith step inv absf evf hinv hstep is _ _ (hinv s i hi) (hstep s i g.1 g.2 hi h)
+
+theorem inv_runWith {σ ι ο} (step : σ → ι → σ × ο) (inv : σ → Prop)
+    (hinv : ∀ s i, inv s → inv (step s i).1) :
+    ∀ (is : List ι) (s : σ), inv s → inv (runWith step s is).1
+  | [], _, h => h
+  | i :: is, s, h => by
+    simp only [runWith]
+    exact inv_runWith step inv hinv is _ (hinv s i h)
+
 end TxV.QueueUtil
